@@ -73,6 +73,13 @@ func PEImage(o PEOpts) *rapid.Generator[[]byte] {
 				hdrPad = hdrPad % 64
 			}
 		}
+		if o.Many && rapid.IntRange(0, 19).Draw(t, "bigheaders") == 0 {
+			// headers that do not fit into one page / one sector read: SizeOfHeaders beyond 4 KiB, 8 KiB
+			hdrPad = rapid.SampledFrom([]int{4096, 4097, 5000, 8192, 8200}).Draw(t, "sizeofheaders") - headersEnd
+			if hdrPad < 0 {
+				hdrPad = 0
+			}
+		}
 		sizeOfHeaders := headersEnd + hdrPad
 		gaps := rapid.IntRange(0, 3).Draw(t, "gaps") == 0
 
